@@ -27,6 +27,19 @@ def operators():
     }
 
 
+class InputWriter(LeanExprWriter):
+    """the differentiated expression op(f, g) itself; the four symbols carry the counts 0..3 in the order the real objects were
+    created (f < g < df < dg), which is what the canonical operand sorting of the constructors looks at"""
+    COUNTS = {"f": 0, "g": 1, "df": 2, "dg": 3}
+
+    def term(self, o):
+        key = self.names.get(id(o))
+        if key in self.COUNTS:
+            c = self.COUNTS[key]
+            return '.term { cls := "Coefficient", key := %s, shape := %s%s }' % (L.s(key), L.lst(o.ufl_shape), (", count := %d" % c) if c else "")
+        return super().term(o)
+
+
 class RuleWriter(LeanExprWriter):
     def __init__(self, names):
         super().__init__(names=names)
@@ -52,7 +65,12 @@ def build():
         f, g, df, dg = [ufl.Coefficient(V) for _ in range(4)]
         names = {id(f): "f", id(g): "g", id(df): "df", id(dg): "dg"}
         e = mk(f) if ar == 1 else mk(f, g)
-        rec = dict(name=name, arity=ar, names=names, keep=(f, g, df, dg, e))
+        from ufl.classes import Label
+        from ufl.corealg.traversal import unique_pre_traversal
+        for o in unique_pre_traversal(e):
+            if isinstance(o, Label):
+                names[id(o)] = "lbl"
+        rec = dict(name=name, arity=ar, names=names, keep=(f, g, df, dg, e), inp=e)
         try:
             rec["gateaux"] = expand_derivatives(ufl.derivative(e, (f, g), (df, dg)))
         except Exception as ex:
@@ -67,6 +85,12 @@ def build():
             ev = mk(v) if ar == 1 else mk(v, v * v)
             rec["variable"] = expand_derivatives(ufl.diff(ev, v))
             rec["keep2"] = (v, ev)
+            rec["inp_v"] = ev
+            names_v = dict(names)
+            for o in unique_pre_traversal(ev):
+                if isinstance(o, Label):
+                    names_v[id(o)] = "lbl" if o == v.ufl_operands[1] else "lbl%d" % len(names_v)
+            rec["names_v"] = names_v
         except Exception as ex:
             rec["variable_error"] = "%s: %s" % (type(ex).__name__, str(ex)[:200])
         out.append(rec)
@@ -85,8 +109,18 @@ def render():
             if fam not in r:
                 ents.append("  -- %s: %s" % (r["name"], r.get(fam + "_error", "").replace("\n", " ")))
                 continue
-            w = RuleWriter(r["names"])
+            w = RuleWriter(r.get("names_v", r["names"]) if fam == "variable" else r["names"])
             ents.append("  { name := %s, arity := %d, out :=\n    %s }" % (L.s(r["name"]), r["arity"], w.expr(r[fam])))
         lines.append("def %s : List Rule := [\n%s]\n" % ({"variable": "variableFam"}.get(fam, fam), ",\n".join(ents)))
+    ents = []
+    for r in recs:
+        if "gateaux" in r:
+            ents.append("  (%s,\n    %s)" % (L.s(r["name"]), InputWriter(r["names"]).expr(r["inp"])))
+    lines.append("/-- the differentiated expressions op(f, g) of the `gateaux` family (symbols with counts 0..3) -/\ndef gateauxInputs : List (String × Expr) := [\n%s]\n" % ",\n".join(ents))
+    ents = []
+    for r in recs:
+        if "variable" in r:
+            ents.append("  (%s,\n    %s)" % (L.s(r["name"]), InputWriter(r["names_v"]).expr(r["inp_v"])))
+    lines.append("/-- the differentiated expressions op(v, v*v) of the `variableFam` family, v = variable(f) with label `lbl` -/\ndef variableInputs : List (String × Expr) := [\n%s]\n" % ",\n".join(ents))
     lines.append("end UflVerif.Gen.DerivRules\n")
     return "\n".join(lines), recs
